@@ -448,6 +448,25 @@ def _run_refine(case, r):
     chk = _Once(r)
     dims = [VS[0] * shape[0], VS[1] * shape[1]]
     data = _basis(shape, pl, dt) + [_generic(shape, pl, dt)] + _converted(shape, pl, dt)
+    # very large finite values (no-data markers, float32 physical data): every block mean is
+    # representable, so coarsening a constant image returns the constant and refine-then-coarsen
+    # is still the identity
+    if np.dtype(dt).kind == "f":
+        big = 0.75 * float(np.finfo(dt).max)
+        for sign in (1.0, -1.0):
+            hug = np.full(tuple(shape) + PAYLOAD[pl], sign * big, dtype=dt)
+            val_h = float(hug.flat[0])  # the value as stored in this dtype
+            for lev_ in (-1, -2, 1):
+                try:
+                    with np.errstate(all="ignore"):
+                        out_h = darsia.uniform_refinement(_make(hug.copy(), pl), lev_)
+                        if lev_ > 0:
+                            out_h = darsia.uniform_refinement(out_h, -lev_)
+                    got_h = np.asarray(out_h.img, dtype=np.float64)
+                    okh = bool(np.all(np.isfinite(got_h))) and (bool(np.all(got_h == val_h)) if lev_ > 0 else bool(np.allclose(got_h, val_h, rtol=1e-6)))
+                    chk(okh, "C11/uniform_refinement/huge-values", "coarsening (and refine-then-coarsen) of a constant image of very large finite values stays finite and returns the constant", level=lev_, dtype=str(dt), value=val_h, got_sample=got_h.ravel()[:3])
+                except Exception as e:  # noqa: BLE001
+                    chk(False, "C11/uniform_refinement/huge-values", "coarsening is usable on very large finite values", level=lev_, exception=f"{type(e).__name__}: {e}")
     for lev in LEVELS:
         if lev != 0:
             r.nontriv(("refine", shape, str(dt), pl, lev))
